@@ -140,7 +140,7 @@ def list_harness(op, n, m, mask=None):
                 xs.sort(reverse=ex.flag("reverse"))
             else:
                 c05.apply(op, xs, key, new, k, False)
-        except (TraitError, IndexError, ValueError, TypeError) as e:
+        except (TraitError, IndexError, ValueError, TypeError, AttributeError, LookupError, RuntimeError, NameError, ArithmeticError) as e:
             exc = type(e).__name__
         cur = o.xs
         after = list(cur)
@@ -251,7 +251,7 @@ def nested_harness(kind):
                 elif opn == 8:
                     tgt = o.c[-1] if kind == "list_of_list" else list(o.c.values())[-1]
                     tgt += [1, 2, 3]
-            except (TraitError, IndexError, KeyError, ValueError, TypeError) as e:
+            except (TraitError, IndexError, KeyError, ValueError, TypeError, AttributeError, LookupError, RuntimeError, NameError, ArithmeticError) as e:
                 exc = type(e).__name__
             snap = snapshot()
             ex.check(valid_state(snap), "nested container state valid after step")
